@@ -3,8 +3,8 @@
 EXTENDS Kolmogorov, TLC, Json
 VARIABLE c
 Init == c = 0
-Next == /\ c < Len(KTable) /\ c' = c + 1
-        /\ PrintT(<<"CASE", ToJson([id |-> KTable[c'].id, fam |-> KTable[c'].fam, params |-> KTable[c'].params,
-                                     xs |-> [k \in 1..Len(KTable[c'].anchors) |-> KTable[c'].anchors[k].x]])>>)
+Next == /\ c < Len(KT) /\ c' = c + 1
+        /\ PrintT(<<"CASE", ToJson([id |-> KT[c'].id, fam |-> KT[c'].fam, params |-> KT[c'].params,
+                                     xs |-> [k \in 1..Len(KT[c'].anchors) |-> KT[c'].anchors[k].x]])>>)
 Spec == Init /\ [][Next]_c
 =============================================================================
